@@ -283,3 +283,24 @@ Proof.
   - rewrite zip_wires; [rewrite map_map; reflexivity|]. rewrite map_map. exact HW.
   - rewrite zip_pynames; [exact ND|]. rewrite Len, !map_length. reflexivity.
 Qed.
+
+(* ---- the two constraint styles generate the same class tree -------------------------------- *)
+Theorem gen_fc_invariant o : forall s p, place_free p s = true -> gen o true p s = gen o false p s.
+Proof.
+  induction s as [c| |lo hi| | |vs|s IH|s lo hi IH|s IH|alts IH|props closed IH] using schema_ind';
+    intros p HF; cbn [gen place_free] in *; auto.
+  - destruct p; cbn [drops_bounds is_pval andb negb orb] in *; auto.
+    apply c_is_none_eq in HF. subst c. reflexivity.
+  - destruct p; cbn [drops_bounds is_pval andb negb orb] in *; auto.
+    apply andb_true_iff in HF as [H1 H2]. destruct lo; [discriminate|]. destruct hi; [discriminate|]. reflexivity.
+  - rewrite (IH p HF). reflexivity.
+  - apply andb_true_iff in HF as [H1 H2]. rewrite (IH PIn H2).
+    destruct p; cbn [keeps_counts is_pin negb orb] in *; auto.
+    destruct lo; [discriminate|]. destruct hi; [discriminate|]. reflexivity.
+  - rewrite (IH PVal HF). reflexivity.
+  - f_equal. apply map_ext_in. intros a Ha. rewrite Forall_forall in IH. apply IH; auto.
+    eapply forallb_forall in HF; [|exact Ha]. exact HF.
+  - destruct (assign_names U0 Pyd o [] [] (map fst props)) as [names|]; [|reflexivity].
+    f_equal. f_equal. apply map_ext_in. intros q Hq. rewrite Forall_forall in IH.
+    rewrite (IH q Hq PTop); [reflexivity|]. eapply forallb_forall in HF; [|exact Hq]. exact HF.
+Qed.
